@@ -95,5 +95,29 @@ def md_noise(rng, maxlen=40):
     return "".join(rng.choice(toks) for _ in range(rng.randint(0, maxlen)))
 
 
+def md_nested(rng):
+    """container prefixes nested 3..9 deep (quotes, bullets, ordered items, mixed), then a block line; a few such lines"""
+    lines = []
+    for _ in range(rng.randint(1, 3)):
+        depth = rng.choice([3, 4, 5, 5, 6, 6, 6, 7, 7, 8, 9])
+        kind = rng.random()
+        if kind < 0.35:
+            pre = "> " * depth
+        elif kind < 0.6:
+            pre = "- " * depth
+        elif kind < 0.7:
+            pre = "1. " * depth
+        else:
+            pre = "".join(rng.choice(["> ", "- ", "1. ", "* ", ">"]) for _ in range(depth))
+        body = rng.choice(["item", "- item", "- item", "* x", "1. one", "> q", "> q", "1. one", "# h", "```", "[foo]: /u", "-", "***", "    code", "<div>", "word word", "| a | b |", ": d", "[^1]: n"])
+        lines.append(pre + body)
+        if rng.random() < 0.3:
+            lines.append("")
+    return "\n".join(lines) + "\n"
+
+
 def md_any(rng, maxlines=8):
-    return md_doc(rng, maxlines) if rng.random() < 0.75 else md_noise(rng)
+    r = rng.random()
+    if r < 0.08:
+        return md_nested(rng)
+    return md_doc(rng, maxlines) if r < 0.78 else md_noise(rng)
